@@ -130,6 +130,38 @@ def replay_model_histories(binary, hists, batch, v):
                 i, mrefs, mh["lock"], rrefs, fin["lock"]))
 
 
+def env_step(v, binary, batch, tier, mode="edit", follow="c02"):
+    """Environments enumerated by Env.tla (TMPDIR kind x spelling of the configuration path x spelling of source_dir x
+    style x lock), each replayed as check, edit, check (+ developer edits and further runs).  The properties are judged
+    by Observe like every other run; Env.tla's predictions about the edit run are compared as a drift test."""
+    cfg = "intended/EnvT.cfg" if tier == "thorough" else "intended/EnvQ.cfg"
+    r = run_tlc("MCEnv.tla", cfg, workers=2, coverage=False)
+    require_tlc_ok(r, cfg)
+    v.add_tlc(r, cfg)
+    envs = tlc_dump(r, "ENV")
+    log("[tlc] %s: %d environments" % (cfg, len(envs)))
+    n = 0
+    for rec in envs:
+        e = rec["env"]
+        tree = {"f1.rs": [S(11), S(12, ref=3)], "f2.rs": [S(21), S(22)]}
+        sc = rl.Scenario("env-%s-%s-%s-%s-%s" % (e["tmp"], e["cfg"], e["srcdir"], e["style"], e["lock"]), tree,
+                         lock=(None if e["lock"] == "absent" else 10), structured=(e["style"] == "structured"),
+                         env={"tmp": e["tmp"], "cfg": e["cfg"], "srcdir": e["srcdir"]})
+        steps = [("check", ""), ("edit", ""), ("check", "")] if mode == "edit" else [("check", "")]
+        res = rl.planned_runs(binary, sc, [steps], batch, v, follow=(follow if mode == "edit" else None),
+                              sigbase={"env_tmp": e["tmp"], "env_cfg": e["cfg"], "env_srcdir": e["srcdir"]})
+        n += 1
+        exits = res[0]["exits"]
+        want = [("nonzero",), (0,) if rec["exit"] == "zero" else ("nonzero",)]
+        got = exits[:2] if mode == "edit" else exits[:1]
+        for w, g in zip(want, got):
+            if g not in w:
+                v.drift.append("environment %s: Env.tla predicts exits %s, observed %s" % (json.dumps(e), want[:len(got)], got))
+                break
+    v.cov["environments"] = n
+    return n
+
+
 # ---------------------------------------------------------------------------------------------
 
 def c01(tier):
@@ -201,6 +233,7 @@ def c01(tier):
         v.evaluated((json.dumps(sc.tree, sort_keys=True), str(sc.kw["lock"]), sc.kw["use_cache"], sc.kw["structured"], sc.kw["base"]))
         v.sample({"tree": sc.tree, "lock": sc.kw["lock"], "use_cache": sc.kw["use_cache"], "structured": sc.kw["structured"],
                   "exits": res["exits"], "after": res["final"]})
+    env_step(v, binary, batch, tier)
     log("[replay] %d pre-state executions (%d model pre-states with something to insert, of %d)" % (len(jobs), len(chosen), len(pre)))
     batch.judge(v, {"C01"})
     v.cov["exhaustive"] = (tier == "thorough")
@@ -253,6 +286,7 @@ def c02(tier):
                 sc = rl.Scenario("env-" + "-".join(env), {"f1.rs": [S(11), S(12, ref=3)], "f2.rs": [S(21), S(22)]},
                                  lock=lock, structured=structured, **env)
                 rl.planned_runs(binary, sc, [[("edit", "")]], batch, v, follow="c02", sigbase=dict(env))
+    env_step(v, binary, batch, tier)
     batch.judge(v, {"C02"})
     v.cov["rule"] = ("(a) behaviours of BreadlogRun (developer edits and runs) obtained by TLC simulation and replayed end to "
                      "end; (b) every operation k of an edit run x {EIO, SIGINT, SIGTERM, kill before, kill after} followed by "
@@ -289,6 +323,7 @@ def c04(tier):
         for tree in ({"f1.rs": [S(11), S(12, ref=3)]}, {"f1.rs": [S(11, ref=1)]}):
             sc = rl.Scenario("tmpdir-missing", tree, lock=5, structured=structured, tmp_missing=True, extra_files=EXTRA)
             rl.planned_runs(binary, sc, [[("check", "")]], batch, v, sigbase={"tmp_missing": True})
+    env_step(v, binary, batch, tier, mode="check")
     kinds = ["EIO", "EACCES", "TERM", "INT", "kill_after"] if tier == "thorough" else ["EIO", "TERM", "kill_after"]
     for structured in (False, True):
         for sc in rl.small_trees(structured=structured, lock=5):
@@ -332,6 +367,7 @@ def c05(tier):
     # (c) rename failures: the printed count must be the number actually inserted
     for sc in rl.small_trees():
         rl.planned_runs(binary, sc, [[("edit", "op=rename,nth=1:errno=5")], [("edit", "op=rename,nth=0:errno=18")]], batch, v)
+    env_step(v, binary, batch, tier, follow="check")
     batch.judge(v, {"C05"})
     # (d) statement level: what precedes the statement on its line (multi-byte text, tabs), CRLF and multi-line layouts,
     #     targets and key-values: every reported (line, column) must be where the following edit inserts
@@ -430,6 +466,7 @@ def c06(tier):
         for sc in rl.small_trees(structured=structured):
             rl.sweep(binary, sc, "edit", ["EIO", "ENOSPC"] + (["EACCES", "short"] if tier == "thorough" else []), batch, v,
                      follow="fixpoint", only_ops=("tmp.create", "tmp.write", "tmp.rename"))
+    env_step(v, binary, batch, tier, follow="fixpoint")
     batch.judge(v, {"C06"})
     # statement level: every shape of statement must be recognised after its own edit (second check passes, second edit
     # changes nothing)
@@ -584,6 +621,7 @@ def c08(tier):
             sc.kw["tmp_on_other_fs"] = True
             sc.name += "-xdev"
             rl.planned_runs(binary, sc, [[("edit", ""), ("check", "")]], batch, v, sigbase={"xdev": True})
+    env_step(v, binary, batch, tier, follow="check")
     batch.judge(v, {"C08"})
     v.cov["rule"] = ("errno / short-write injection at every temp-file operation of an edit run, multi-fault plans on "
                      "every / every-second create, write and rename, and a real cross-device TMPDIR; each followed by "
@@ -628,6 +666,7 @@ def c16(tier):
         sc = rl.Scenario("cache-off-stop", {"f1.rs": [S(11)], "f2.rs": [S(21), S(22)]}, use_cache=False, lock=lock)
         rl.sweep(binary, sc, "edit", ["TERM", "INT"], batch, v)
         rl.sweep(binary, sc, "edit", ["EIO"], batch, v, only_ops=("tmp.create", "tmp.write", "tmp.rename"))
+    env_step(v, binary, batch, tier, follow="c02")
     batch.judge(v, {"C16"})
     v.cov["exhaustive"] = True
     v.cov["rule"] = ("all combinations of use_cache {omitted,true,false} x structured {omitted,false,true} x extensions {omitted,[rs]} x "
